@@ -344,8 +344,8 @@ def near_levels(rng, count):
     """probabilities at, just below and just above step boundaries, and inside steps"""
     out = []
     for _ in range(count):
-        k = rng.choice([1, 2, 3, 50, 99, 100, 101, 150, 197, 198, 199, rng.randint(1, 199)])
-        d = rng.choice([F(0), F(1, 10 ** 6), -F(1, 10 ** 6), F(1, 400), F(1, 3 * N)])
+        k = rng.choice([1, 2, 3, N // 4, N // 2 - 1, N // 2, N // 2 + 1, 3 * N // 4, N - 3, N - 2, N - 1, rng.randint(1, N - 1)])
+        d = rng.choice([F(0), F(1, 10 ** 6), -F(1, 10 ** 6), F(1, 2 * N), F(1, 3 * N)])
         p = F(k, N) + d
         if 0 < p < 1:
             out.append(p)
@@ -367,7 +367,7 @@ def laws_min_mean(rng, m, mu, n):
     if mu == m:
         return [("point", [(m, F(1))])]
     out.append(("point-mean", [(mu, F(1))]))
-    for p in near_levels(rng, max(6, n // 2)) + [F(k, N) for k in (1, 100, 198, 199)]:
+    for p in near_levels(rng, max(6, n // 2)) + [F(k, N) for k in (1, N // 2, N - 2, N - 1)]:
         out.append(("markov-two-point", discrete([(m, p), (m + (mu - m) / (1 - p), 1 - p)])))
     for _ in range(n):
         k = rng.randint(2, 5)
@@ -401,7 +401,7 @@ def laws_mean_std(rng, mu, V, n):
 
     def three(c):  # Chebyshev extremal, c*c >= V
         return discrete([(mu - c, V / (2 * c * c)), (mu, 1 - V / (c * c)), (mu + c, V / (2 * c * c))])
-    for p in near_levels(rng, max(6, n // 2)) + [F(k, N) for k in (1, 2, 100, 198, 199)]:
+    for p in near_levels(rng, max(6, n // 2)) + [F(k, N) for k in (1, 2, N // 2, N - 2, N - 1)]:
         for al in alpha_for_level(V, p):
             if al > 0:
                 base.append(("cantelli-two-point", two_point(mu, V, al)))
@@ -933,7 +933,8 @@ def run(ctx: core.Check, cases=None):
                 "supported sets, through return_construct and through the UncertainNumber wrapper; every constructor (directly and through "
                 "the dispatcher) on witness and grid specifications scaled by 2^-30, 2^-60, 2^-70, 2^36, 1e-6, 1e-19, 1e6 (variances by the "
                 "square), with the full law oracle at that scale and, for the power-of-two scales, bounds == scale x bounds of the "
-                "unscaled specification; falsy-but-valid arguments (0, 0.0, -0.0) through dispatcher and constructors. Each admissible case is checked "
+                "unscaled specification; the discretisation Params.steps (and p_values) set to 100/40/300/400, used and restored, with the law "
+                "oracle at that grid and before/after equality; falsy-but-valid arguments (0, 0.0, -0.0) through dispatcher and constructors. Each admissible case is checked "
                 "against ~20-60 exact finite laws (Markov/Cantelli/range-mean two-point, Chebyshev three-point, three-point "
                 "moment-matched, mixtures, mean-fixed random laws; Khinchin mixtures of uniforms for the mode). A case is non-trivial "
                 "unless the range or the dispersion is degenerate; distinctness on (call, arguments).")
@@ -1014,6 +1015,62 @@ def run(ctx: core.Check, cases=None):
         if len(ctx.samples) < 6 and stream in ("grid", "random", "dispatch-valid") and impl[0] == "ok" and impl[1] != "parametric":
             ctx.sample({"stream": stream, "fn": fn, "args": _ja(A), "left[0,1,100,199]": [impl[1][i] for i in (0, 1, 100, 199)],
                         "right[0,1,100,199]": [impl[2][i] for i in (0, 1, 100, 199)]})
+    grid_stream(ctx)
+
+
+GRIDS = (100, 40, 300, 400)
+# constructors whose unchanged code reads the discretisation at call time; the closed-form ones take `steps=Params.steps`
+# as a default argument (bound at import) — see KF-C10-closed-form-ignores-configured-steps
+GRID_STEPS_ONLY = ("min_max", "min_max_mean_std", "min_max_mean_var")
+
+
+def grid_stream(ctx):
+    """practice P(ii): the public discretisation Params.steps / Params.p_values set to another value, used, set back.
+    A p-box built under the changed grid must have the configured number of steps and satisfy the law oracle AT THAT
+    GRID (levels strictly inside (k/n,(k+1)/n)); results after restoring must equal the ones before."""
+    global N
+    from pyuncertainnumber.pba.params import Params
+    rng = ctx.rng
+    d_steps, d_pv = Params.steps, Params.p_values
+    specs = []
+    for fn in FUNS:
+        ws = [dict(A) for f2, A in WITNESS if f2 == fn and not any(float(v) == 0 for k, v in A.items() if k in ("std", "var"))]
+        specs.append((fn, {k: float(v) for k, v in ws[0].items()}))
+        specs.append((fn, {k: float(v) for k, v in gen_valid(rng, fn, True).items()}))
+    specs += [("min_max_mean_std", dict(minimum=0.0, maximum=10.0, mean=3.0, std=2.0)),
+              ("min_max_mean_std", dict(minimum=-4.0, maximum=4.0, mean=1.0, std=1.5)),
+              ("min_max_mean_var", dict(minimum=0.0, maximum=10.0, mean=3.0, var=4.0))]
+    before = [run_impl(fn, A) for fn, A in specs]
+    grids = [100] + rng.sample([g for g in GRIDS if g != 100], ctx.scale(2, 3))
+    for n in grids:
+        for mode in ("steps+p_values", "steps"):
+            try:
+                Params.steps = n
+                if mode == "steps+p_values":
+                    Params.p_values = np.linspace(Params.p_lboundary, Params.p_hboundary, n)
+                N = n
+                for fn, A in specs:
+                    if mode == "steps" and fn not in GRID_STEPS_ONLY:
+                        continue
+                    via_kp = rng.random() < 0.3
+                    call_fn = "known_properties" if via_kp else fn
+                    key = (call_fn, tuple(sorted(A.items())), n, mode)
+                    E = {k: F(v) for k, v in A.items()}
+                    if not admissible(fn, E):
+                        continue
+                    ctx.count(key, nontrivial=True, stream="grid")
+                    impl = run_impl(call_fn, A)
+                    ft = dict(feats_of(call_fn, A, "grid", "direct"), grid=n, grid_mode=mode)
+                    call = {"fn": call_fn, "args": _ja(A), "via": "direct", "Params.steps": n, "set": mode}
+                    oracle(ctx, fn, E, impl, ctx.scale(6, 12), rng_for(ctx, key), call, ft)
+            finally:
+                Params.steps, Params.p_values = d_steps, d_pv
+                N = 200
+    after = [run_impl(fn, A) for fn, A in specs]
+    for (fn, A), b, a in zip(specs, before, after):
+        if a != b:
+            ctx.fail({"call": fn, "constructor": fn, "stream": "grid", "symptom": "state-leak"},
+                     {"fn": fn, "args": _ja(A)}, f"{fn}{_ja(A)}: result after Params.steps/p_values were changed and restored differs from the result before")
 
 
 def rng_for(ctx, key):
